@@ -39,6 +39,8 @@ OBLIGATION_MSG = [
     ('may fail to meet its declared type invariant', 'type-invariant'),
     ('unreachable', 'unreachable'),
     ('cannot prove', 'assert'),
+    ('unable to prove post-condition of closure', 'closure-ensures'),
+    ('unable to prove pre-condition of closure', 'closure-requires'),
 ]
 
 
